@@ -45,6 +45,28 @@ func c02Open(path, kind string) (*database.Database, error) {
 			database.NewCachedDatabase(db).UpdateDatabase(again.Commands)
 		}
 		return db, nil
+	case "plain-literal": // assembled in code from plain entries (what a YAML file holds, nothing the loader prepared)
+		l, err := database.LoadDatabase(path)
+		if err != nil {
+			return nil, err
+		}
+		return &database.Database{Commands: vlib.StripCaches(l.Commands)}, nil
+	case "replaced": // a long-lived object that held other content of the same size, answered suggestions and searches, and was then
+		// given this content through the caching wrapper
+		db, err := database.LoadDatabase(path + ".other.yml")
+		if err != nil {
+			return nil, err
+		}
+		now, err := database.LoadDatabase(path)
+		if err != nil {
+			return nil, err
+		}
+		for _, w := range []string{"lst", "comit", "zz"} {
+			db.GetSuggestions(w, 5)
+		}
+		db.SearchUniversal("warm up", database.SearchOptions{UseNLP: true})
+		database.NewCachedDatabase(db).UpdateDatabase(now.Commands)
+		return db, nil
 	case "notebook": // main file plus the personal notebook beside it (which repeats some of the main entries)
 		return database.LoadDatabaseWithPersonal(path, path+".personal.yml")
 	case "literal":
@@ -151,9 +173,27 @@ func engineDeterminism(ctx *Ctx) {
 		kind := "file"
 		if dbName != "shipped" {
 			kind = []string{"file", "notebook", "refreshed", "literal", "fallback", "file"}[d%6]
-			if ctx.G(d)%5 == 2 {
+			switch ctx.G(d) % 5 {
+			case 2:
 				kind = "notebook"
+			case 3:
+				kind = "plain-literal"
+			case 4:
+				kind = "replaced"
 			}
+			if len(cmds) > 2500 {
+				kind = "file"
+			}
+		}
+		if kind == "replaced" {
+			other := vlib.GenCommands(r, sp)
+			for len(other) < len(cmds) {
+				other = append(other, other[r.Intn(len(other))])
+			}
+			if err := vlib.WriteYAML(dbp+".other.yml", vlib.StripCaches(other[:len(cmds)])); err != nil {
+				panic(err)
+			}
+			defer os.Remove(dbp + ".other.yml")
 		}
 		if kind == "notebook" {
 			// a notebook that repeats entries of the main file word for word (saved from a search result) and adds its own
@@ -188,6 +228,9 @@ func engineDeterminism(ctx *Ctx) {
 			words = words[:2000]
 		}
 		otherKind := kind
+		if kind == "replaced" {
+			otherKind = "file" // ... must answer like a plain load of the content it holds now
+		}
 		if kind == "refreshed" {
 			otherKind = "file" // a refreshed database holds the same content as a plainly loaded one: the answers must agree
 		}
@@ -330,6 +373,18 @@ func engineDeterminism(ctx *Ctx) {
 			} {
 				ctx.R.Guard("C02", ep.name, cs, func() {
 					a0 := vlib.Canon(db.Commands, ep.f(db))
+					if (kind == "plain-literal" || kind == "literal") && N <= 400 && ci%2 == 0 {
+						// the same call as the very first call on an instance that has never searched (nothing built, nothing cached yet)
+						if v, err := c02Open(dbp, kind); err == nil {
+							if av := vlib.Canon(v.Commands, ep.f(v)); !vlib.Exact(a0, av) {
+								ctx.R.Violate(vlib.Violation{Property: "C02", Clause: "repeat-call", Path: ep.name + "/first-call-on-a-new-instance",
+									Detail:  "the answer of an instance that has searched before differs from the answer of the same call as the first call on a new instance with the same content",
+									Witness: map[string]interface{}{"case": cs, "after_other_searches": a0, "first_call": av}})
+								return
+							}
+							ctx.R.Path("first-call-on-a-new-instance-compared", 1)
+						}
+					}
 					for i := 1; i < reps; i++ {
 						if a := vlib.Canon(db.Commands, ep.f(db)); !vlib.Exact(a0, a) {
 							ctx.R.Violate(vlib.Violation{Property: "C02", Clause: "repeat-call", Path: ep.name,
